@@ -3,5 +3,5 @@
 patch=$1; pid=$2; tier=${3:-quick}
 git -C /repo apply "$patch" || { echo "PATCH DOES NOT APPLY"; exit 9; }
 cd /verif; ./check $pid $tier > /tmp/mutest.out 2>&1; rc=$?; tail -6 /tmp/mutest.out
-git -C /repo checkout -- .
+git -C /repo checkout -- .; python3 /verif/tools/gen_all.py /repo >/dev/null
 echo "== verdict for $(basename $(dirname $patch))/$(basename $patch): exit=$rc"
